@@ -11,7 +11,7 @@
    as_cmd_seq (its numerics are C12's theorems), the basic-shape outlines, and the size of the
    drift when a 1e-9 snap does fire. *)
 From Coq Require Import ZArith Reals Lra List Bool Ascii String.
-From Pico Require Import Num PyStr G_geom G_meta G_types Walk PathSem E3_walk E3_rewrites E3_shorthand E3_forms.
+From Pico Require Import Num PyStr G_geom G_meta G_types Walk PathSem E3_walk E3_rewrites E3_shorthand E3_forms E3_chain.
 Import ListNotations.
 Local Open Scope char_scope.
 
@@ -59,6 +59,14 @@ Theorem C09_no_ST_after_expand_shorthand (p : pathR) :
   Forall (fun c => In (fst c) letters) p -> Forall not_st (expand_shorthand (N:=ROps) p).
 Proof. exact (expand_shorthand_form p). Qed.
 
+(* the rewrites compose: the normal form handed to Skia (as_cmd_seq = arcs_to_cubics . absolute . expand_shorthand .
+   explicit_lines) describes the same curve as a well-formed arc-free path and uses M L C Q Z only (arcs: C12) *)
+Theorem C09_as_cmd_seq (MO : MathOps ROps) (p : pathR) :
+  wf_path p -> Forall (fun c => In (fst c) S0) p ->
+  pre_all (pre_nosnap (_relative_to_absolute ROps)) true istate0 (expand_shorthand (N:=ROps) (explicit_lines (N:=ROps) p)) ->
+  interpR (as_cmd_seq MO p) = interpR p /\ Forall (fun c => In (fst c) S3) (as_cmd_seq MO p).
+Proof. exact (as_cmd_seq_preserves MO p). Qed.
+
 (* rounding to n digits moves no coordinate by more than half a unit in the last place *)
 Theorem C09_rounding (nd : Z) (p : pathR) :
   Forall2 (fun c c' => fst c = fst c' /\
@@ -75,5 +83,5 @@ Proof. repeat constructor; cbn; tauto. Qed.
 (* one traversal for the axioms of the whole property file *)
 Definition C09_all := (C09_walk_tracks_current_point, C09_explicit_lines, C09_expand_shorthand, C09_absolute,
   C09_absolute_moveto, C09_relative, C09_move, C09_no_lowercase_after_absolute, C09_no_HV_after_explicit_lines,
-  C09_no_ST_after_expand_shorthand, C09_rounding).
+  C09_no_ST_after_expand_shorthand, C09_as_cmd_seq, C09_rounding).
 Print Assumptions C09_all.
